@@ -3,6 +3,7 @@ package main
 import (
 	"encoding/hex"
 	"fmt"
+	"strconv"
 	"strings"
 
 	"verifharness/cmd/c11/fsd"
@@ -141,6 +142,40 @@ func gen(g *vh.Gen) {
 	emit(0, []string{a(7, 1), a(8, 2), a(9, 3), a(8, 4), "X", "v", "r.8.0", a(7, 5), "t", "v", "R", a(9, 6), "s.9.0", "X", "v"})
 	emit(2, []string{a(13, 1), a(14, 2), a(13, 3), a(13, 4), "R", a(14, 5), "v", "X", "r.13.2", "p.14", "v"})
 	emit(0, []string{a(15, 1), a(16, 2), a(17, 3), a(18, 4), a(19, 5), a(10, 6), a(11, 7), a(12, 8), "X", "v", "t", "v", "R", a(19, 9), "r.19.0", "v"})
+	// UPGRADE: a directory in the pinned tree's format, written by the driver's own writer, opened by the code under test
+	o := func(mb, n int) string { // an old (expired) message
+		return fmt.Sprintf("a.%d.u%d.%d.%s.2", mb, n, 1500000000+n, hex.EncodeToString([]byte(fmt.Sprintf("old %d\r\n", n))))
+	}
+	upg := func(cap int, setup, ops []string) {
+		g.Emit("upg", vh.I(cap), pool, strings.Join(setup, ","), strings.Join(ops, ","))
+	}
+	upg(0, []string{a(0, 1), a(0, 2), a(3, 3), "s.0.0", a(8, 4), a(9, 5)}, []string{"v", a(0, 6), "r.3.0", "R", "v", "t", "v", "X", "v"})
+	upg(0, []string{o(0, 1), y(0, 2), o(1, 3), o(4, 4), y(4, 5), "s.4.1"}, []string{"t", "v", "R", y(5, 6), "v"})
+	upg(2, []string{a(7, 1), a(7, 2), a(7, 3), a(13, 4)}, []string{"v", a(7, 5), "X", "v", "s.7.2", "R"})
+	for i := 0; i < g.N(6, 300); i++ {
+		s := &genState{g: g}
+		mbs := [][]int{{0, 1}, {0, 2, 3}, {7, 8, 9}, {3, 4, 5, 12}}[g.Intn(4)]
+		var setup []string
+		for j, n := 0, 1+g.Intn(6); j < n; j++ {
+			mb := mbs[g.Intn(len(mbs))]
+			setup = append(setup, s.add(mb))
+			if g.Chance(0.2) {
+				setup = append(setup, fmt.Sprintf("s.%d.%d", mb, g.Intn(s.adds[mb])))
+			}
+		}
+		ops := []string{"v"}
+		if g.Chance(0.5) {
+			ops = append(ops, "t", "v")
+		}
+		for j, n := 0, g.Intn(5); j < n; j++ {
+			ops = append(ops, s.op(mbs))
+			if g.Chance(0.2) {
+				ops = append(ops, []string{"R", "X"}[g.Intn(2)])
+			}
+		}
+		ops = append(ops, "R", "v")
+		upg([]int{0, 0, 2, 3}[g.Intn(4)], setup, ops)
+	}
 	// restart with large on-disk structures: an index of about 1.4 MiB (12 messages x 4000 recipients), one of about
 	// 70 KiB; thorough: about 4 MiB, many plain messages, bodies of 1 MiB and 32 MiB
 	g.Emit("big", "0", pool, "12", "4000", "4")
@@ -152,6 +187,29 @@ func gen(g *vh.Gen) {
 		g.Emit("big", "0", pool, "2", "2", "2097152")
 		g.Emit("big", "2", pool, "5", "3000", "16")
 	}
+	// the mailbox-SIZE dimension: mailboxes of 1 message to 1000 (orders of magnitude and the neighbours of powers of
+	// two / of round numbers), a few removals / seen flags through the live object right before the stop, no further
+	// delivery; then a fresh store on the path
+	sizes := []int{1, 2, 15, 16, 17, 50, 100, 101, 128, 130, 300}
+	if g.Tier == "thorough" {
+		sizes = append(sizes, 31, 33, 63, 65, 99, 127, 129, 255, 257, 1000, 1025)
+	} else {
+		sizes = append(sizes, 1000)
+	}
+	for _, n := range sizes {
+		var ms []string
+		k := 1 + g.Intn(6)
+		if n >= 100 && g.Chance(0.3) {
+			k = 24 + g.Intn(4)
+		}
+		for i := 0; i < k; i++ {
+			ms = append(ms, []string{"r", "r", "s"}[g.Intn(3)]+"."+strconv.Itoa(g.Intn(n+1)))
+		}
+		g.Emit("size", "0", pool, strconv.Itoa(n), strings.Join(ms, ","))
+	}
+	g.Emit("size", "0", pool, "120", "r.0,s.1,r.119")
+	g.Emit("size", "0", pool, "300", "-")
+	g.Emit("size", "7", pool, "130", "r.125,s.129,r.3")
 	// the SERVER is stopped and started again on the same storage path (retention disabled / 24 h, with and without a cap)
 	g.Emit("srv", "0", pool, "0", "sa,sb,sa,sc,sa")
 	g.Emit("srv", "0", pool, "24h", "sa,sb,sb")
